@@ -9,6 +9,8 @@ every check on the copy and compares the set of failing keys with the run on /re
 usage: tools/refactor_twin.py [--rename] [--log | --flip] [props...]
   --log   adds a debug log call at the start of every function and at the end of every with-block
   --flip  swaps the arms of every two-armed if (negating the test)
+  --try   wraps every function body and every for-loop body in try/except Exception: raise
+  --retvar  `return <expr>` becomes `_ret = <expr>; return _ret`
 """
 
 from __future__ import annotations
@@ -43,7 +45,7 @@ def failing(prop: str, root: Path) -> tuple[set[str], list[str]]:
 def main() -> int:
     args = [a for a in sys.argv[1:] if not a.startswith("--")]
     rename = "--rename" in sys.argv
-    mode = "log" if "--log" in sys.argv else "flip" if "--flip" in sys.argv else ""
+    mode = next((m for m in ("log", "flip", "try", "retvar") if f"--{m}" in sys.argv), "")
     props = args or PROPS
     src = Path("/repo")
     tmp = Path(tempfile.mkdtemp(prefix="sa-twin-"))
